@@ -174,6 +174,15 @@ func (p recvProp) Oracle(inp interface{}, obs Sx) (string, string) {
 	if nquit != 1 {
 		return "receive loop end not observed exactly once", "quit"
 	}
+	if endedBy == "close" && !in.Component {
+		// the server closed the stream: still a disconnection, but no error
+		if ndisc != 1 {
+			return fmt.Sprintf("stream closed by the server: %d Disconnected events", ndisc), "disconnected-events-close"
+		}
+		if nerr != nserr {
+			return fmt.Sprintf("stream closed by the server: %d error callbacks (stream errors seen: %d)", nerr, nserr), "error-callbacks-close"
+		}
+	}
 	if endedBy != "close" {
 		if ndisc != 1 {
 			return fmt.Sprintf("connection lost (%s): %d Disconnected events", endedBy, ndisc), "disconnected-events-" + endedBy
